@@ -207,6 +207,7 @@ class MibCompiler(object):
         builtMibs = {}
         symbolTableMap = {}
         mibsToParse = [x for x in mibnames]
+        fetchedMibs = set()
         canonicalMibNames = {}
 
         while mibsToParse:
@@ -219,6 +220,12 @@ class MibCompiler(object):
             if mibname in failedMibs:
                 debug.logger & debug.flagCompiler and debug.logger('MIB %s already failed' % mibname)
                 continue
+
+            if mibname in fetchedMibs:
+                debug.logger & debug.flagCompiler and debug.logger('MIB %s already fetched' % mibname)
+                continue
+
+            fetchedMibs.add(mibname)
 
             for source in self._sources:
                 debug.logger & debug.flagCompiler and debug.logger('trying source %s' % source)
